@@ -110,7 +110,7 @@ SPEC = {
     "harnesses": [
         _asm(1, 0, Q), _asm(2, 0, T), _asm(2, 2, Q), _asm(3, 0, T), _asm(3, 2, Q),
         _asm(1, 0, Q, undec=0), _asm(2, 2, T, undec=1),
-        _pslot(1, Q),
+        _pslot(1, Q), _pslot(2, T),
         {"name": "c13_once", "path": MOD, "tiers": Q, "role": "exactly once: a completed block is never assembled again", "functions": ["BlockData::try_reconstruct_block"],
          "bounds": "arbitrary BlockData whose `completed` is set (any hash / parent), with or without a last-slice marker (none, 0, 1) and a left-over slice 0", "stubs": [LOG_STUB], "covers": 1, "cbmc_args": CBMC},
         {"name": "c13_noaction", "path": MOD, "tiers": Q, "role": "no assembly without marker / with a slice missing / twice", "functions": ASM_FUNCS,
